@@ -102,10 +102,15 @@ type monitors struct {
 	finished bool
 	// Every ExecuteResponse a harness worker ever produced, by marker.
 	reportRecs map[string]*reportRec
+	// lastWaiter: operation name -> latest scheduler time (bq.now, in ticks)
+	// at which some harness stream was attached to the operation and its
+	// client was still there (see noteWaiter). Harness-owned lower bound of
+	// the instant from which the scheduler may count the no-waiter timeout.
+	lastWaiter map[string]int
 }
 
 func newMonitors(w *world) *monitors {
-	return &monitors{w: w, tasks: map[int]*taskInfo{}, taskOf: map[any]int{}, opTask: map[string]int{}, reportRecs: map[string]*reportRec{}}
+	return &monitors{w: w, tasks: map[int]*taskInfo{}, taskOf: map[any]int{}, opTask: map[string]int{}, reportRecs: map[string]*reportRec{}, lastWaiter: map[string]int{}}
 }
 
 func (m *monitors) install() {
@@ -352,6 +357,11 @@ func (m *monitors) absorb(snap *scheduler.VerifSnap) {
 			m.classifyCompletion(ti, t)
 			if isNoWaitersCancellation(ti.finalResp) {
 				m.checkCancelledWithLiveStream(ti, "was completed with "+respSummary(ti.finalResp))
+				if why := m.abandonedTooEarly(ti, ti.completionTick); why != "" {
+					ti.finalProblem = why
+					ti.finalTag = "early-abandonment"
+					m.fail("C06", "early-abandonment", "task %d: %s", ti.id, why)
+				}
 			}
 		}
 	}
@@ -366,6 +376,9 @@ func (m *monitors) absorb(snap *scheduler.VerifSnap) {
 					// leaves the scheduler: its last operation was removed
 					// as abandoned (which cancels it for lack of clients).
 					m.checkCancelledWithLiveStream(ti, "disappeared without a result, i.e. its last operation was removed as abandoned")
+					if why := m.abandonedTooEarly(ti, min(now, nsTick(snap.Now))); why != "" {
+						m.fail("C06", "early-abandonment", "task %d disappeared without a result (its last operation was removed as abandoned): %s", id, why)
+					}
 					if l := ti.lastLearner(); l != nil && !(l.abandonedN == 1 && l.succeeded == 0 && l.failed == 0) {
 						m.fail("C07", "learner/mismatch/vanished", "task %d disappeared without a result (abandoned by its clients) but its learner %v received succeeded=%d failed=%d abandoned=%d; expected exactly one Abandoned", id, l, l.succeeded, l.failed, l.abandonedN)
 					}
@@ -385,6 +398,61 @@ func (m *monitors) absorb(snap *scheduler.VerifSnap) {
 			m.checkStream(s)
 		}
 	}
+	// Last, so that the clean-ups judged above are measured against what was
+	// known BEFORE this quiescent point.
+	for _, a := range w.actors {
+		for _, s := range a.streams {
+			m.noteWaiter(s, false)
+		}
+	}
+}
+
+// noteWaiter records that the operation of stream s has a waiter at the
+// scheduler time of the latest dump (w.mu held). Only harness-owned facts
+// decide: the stream has received a message (waitExecution registers the
+// waiter before its first Send and only drops it when the call returns), its
+// call has not returned, and its client is still there (context not
+// cancelled by the harness, no Send failure). bq.now is monotone, so the
+// value of the latest dump is a lower bound of the scheduler time at which
+// that waiter will leave, i.e. of the instant T0 from which a correct
+// scheduler counts OperationWithNoWaitersTimeout (it arms the removal at
+// bq.now + timeout when the waiter count drops to zero).
+func (m *monitors) noteWaiter(s *stream, inSend bool) {
+	if m.snap == nil || s.name == "" || len(s.msgs) == 0 || s.returned || s.sendFailed || s.ctx.cancelled() || (!inSend && s.doneMsg() != nil) {
+		// (After its done message a stream only has to take the lock once more
+		// to leave; outside that very Send it is not noted any more, so that
+		// the record stays a lower bound even if a scheduling point separates
+		// that last critical section from the return of the call.)
+		return
+	}
+	now := nsTick(m.snap.Now)
+	if lw, ok := m.lastWaiter[s.name]; !ok || now > lw {
+		m.lastWaiter[s.name] = now
+	}
+}
+
+// abandonedTooEarly: C06 "an operation nobody waits on is removed after the
+// no-waiter timeout (cancelling the task if it was the last)"; C02 "an error
+// the scheduler itself produced for a stated cause (... no waiting clients
+// ...)". A task may only be cancelled for lack of clients once EVERY one of
+// its operations has been without a waiter for the full timeout. at is an
+// upper bound of the scheduler time of the cancellation (bq.now when it is
+// first visible); lastWaiter is a lower bound of the time each operation
+// lost its last waiter. Returns "" if the cause can be true (w.mu held).
+func (m *monitors) abandonedTooEarly(ti *taskInfo, at int) string {
+	var names []string
+	for name, id := range m.opTask {
+		if id == ti.id {
+			names = append(names, name)
+		}
+	}
+	sort.Strings(names)
+	for _, name := range names {
+		if lw, ok := m.lastWaiter[name]; ok && at < lw+m.w.cfg.NoWaiter {
+			return fmt.Sprintf("CANCELED (no waiting clients) at scheduler tick %d although its operation %s still had a waiting client at tick %d and the no-waiter timeout is %d ticks", at, opShort(name), lw, m.w.cfg.NoWaiter)
+		}
+	}
+	return ""
 }
 
 // classifyCompletion judges the final response of a task at the moment its
@@ -503,8 +571,24 @@ func (m *monitors) classifyCompletion(ti *taskInfo, t *scheduler.VerifTask) {
 				ti.finalProblem = "carries an operator status although no operator issued that kill"
 			}
 		case st.Code() == codes.Internal && strings.Contains(msg, "Attempted to execute task"):
-			if ti.maxRerequests < cfg.RetryCount+1 {
+			// C02 "an error the scheduler itself produced for a stated cause
+			// (... retry limit reached ...)", C06 "a task a worker keeps
+			// re-requesting is failed with INTERNAL after the configured number
+			// of retries". The cause is stated per ASSIGNMENT: "Attempted to
+			// execute task N times ... This task may cause worker W to crash".
+			// It is true only if W itself was handed this task
+			// WorkerTaskRetryCount+1 times (once plus the retries) before the
+			// re-request that failed it; hand-outs to another worker (the small
+			// worker before the documented retry on the largest size class) do
+			// not count against W. All those hand-outs were responses of earlier,
+			// returned calls of W, so the per-(task, worker) counter has them.
+			if mm := reHost.FindStringSubmatch(msg); mm != nil && ti.handouts[mm[1]] < cfg.RetryCount+1 {
+				ti.finalProblem = fmt.Sprintf("INTERNAL (retry limit, blaming worker %s) although that worker was handed the task only %d time(s) and WorkerTaskRetryCount=%d allows %d hand-outs per assignment (hand-outs per worker: %s)", mm[1], ti.handouts[mm[1]], cfg.RetryCount, cfg.RetryCount+1, m.handoutSummary(ti))
+				ti.finalTag = "retry-limit-per-assignment"
+			} else if ti.maxRerequests < cfg.RetryCount+1 {
 				ti.finalProblem = fmt.Sprintf("INTERNAL (retry limit) although no worker re-requested the task more than %d time(s)", cfg.RetryCount)
+			}
+			if ti.finalProblem != "" {
 				m.fail("C06", "early-retry-limit", "task %d: %s", ti.id, ti.finalProblem)
 			}
 		default:
@@ -568,6 +652,7 @@ func (m *monitors) onMessage(s *stream, msg streamMsg) {
 		s.stageViolation = fmt.Sprintf("done=%v but stage=%s", msg.done, msg.stage)
 	}
 	s.retriesSeenBefore = m.retries
+	m.noteWaiter(s, true)
 }
 
 func (m *monitors) onStreamTaskKnown(s *stream) {
@@ -617,6 +702,10 @@ func (m *monitors) checkStream(s *stream) {
 	if isNoWaitersCancellation(d.resp) {
 		msg := status.FromProto(d.resp.Status).Message()
 		m.fail("C03", "cancelled-with-waiter", "stream %s was told %q while it was waiting", s.id, msg)
+		// C06: "an operation nobody waits on is removed after the no-waiter
+		// timeout (cancelling the task if it was the last)": this stream waits
+		// on the operation, so that cause cannot hold for its task.
+		m.fail("C06", "cancelled-with-waiter", "stream %s was told %q while it was waiting", s.id, msg)
 		if s.task != 0 && m.tasks[s.task].completedSeen {
 			m.fail("C02", "cancelled-with-waiter", "stream %s was told %q while it was waiting", s.id, msg)
 		}
@@ -687,6 +776,9 @@ func (m *monitors) liveStreamsOf(id int) []string {
 func (m *monitors) checkCancelledWithLiveStream(ti *taskInfo, what string) {
 	if live := m.liveStreamsOf(ti.id); len(live) > 0 {
 		m.fail("C03", "cancelled-with-live-stream", "task %d %s although stream(s) %v are attached to its operation(s) and their clients never left (context not cancelled, no Send failure)", ti.id, what, live)
+		// C06: the no-waiter clean-up may only cancel a task all of whose
+		// operations have been without a waiter for the full timeout.
+		m.fail("C06", "cancelled-with-live-stream", "task %d %s although stream(s) %v are attached to its operation(s) and their clients never left (context not cancelled, no Send failure): the operation was not without waiters for the no-waiter timeout", ti.id, what, live)
 	}
 }
 
@@ -727,6 +819,22 @@ func (m *monitors) onStreamEnd(s *stream, err error) {
 		// Rejected up front: not a stream.
 		if err == nil {
 			m.fail("C02", "nil-without-done", "stream %s: call returned nil without any message", s.id)
+		} else if lw, ok := m.lastWaiter[s.waitFor]; s.kind == "wait" && code == codes.NotFound && ok {
+			// C02: "Every Execute or WaitExecution stream that its client does
+			// not cancel ends with exactly one message marked done" (re-attaching
+			// by name is part of the quantifier); C06: "an operation nobody
+			// waits on is removed AFTER the no-waiter timeout". NOT_FOUND is the
+			// legitimate answer only once the operation has been without a
+			// waiter for OperationWithNoWaitersTimeout. The scheduler time of
+			// the look-up is at most the harness clock now (the call has just
+			// returned; bq.now never exceeds the clock); the operation had a
+			// waiter at scheduler time lw or later (noteWaiter). So if
+			// clock < lw + timeout the removal cannot have been due.
+			if end := w.clock.tick(); end < lw+w.cfg.NoWaiter {
+				msg := fmt.Sprintf("stream %s: WaitExecution(%s) was rejected with NOT_FOUND at tick %d although that operation still had a waiting client at scheduler tick %d and the no-waiter timeout is %d ticks: the client re-attached inside the window, was never cancelled, and gets no done message", s.id, opShort(s.waitFor), end, lw, w.cfg.NoWaiter)
+				m.fail("C02", "reattach-rejected-inside-window", "%s", msg)
+				m.fail("C06", "early-operation-removal", "%s", msg)
+			}
 		}
 	default:
 		m.fail("C02", "ended-without-done", "stream %s: call returned %v after %d message(s) without a done message although it was neither cancelled nor did Send fail", s.id, err, len(s.msgs))
@@ -867,6 +975,16 @@ func (a *actor) lastContactBefore(c int) (int, bool) {
 func (a *actor) parkedSinceBefore(c int) bool {
 	wk := a.wk
 	return wk != nil && a.inCall && a.doneCalls > 0 && wk.curFirst >= 0 && wk.curFirst < c
+}
+
+func (m *monitors) handoutSummary(ti *taskInfo) string {
+	var parts []string
+	for _, a := range m.w.actors {
+		if n := ti.handouts[a.name]; n > 0 {
+			parts = append(parts, fmt.Sprintf("%s:%d", a.name, n))
+		}
+	}
+	return strings.Join(parts, " ")
 }
 
 func (m *monitors) contactSummary(names []string) string {
@@ -1302,6 +1420,26 @@ func (m *monitors) checkC01(snap *scheduler.VerifSnap) {
 			fail("worker/last-invocation-detached", "worker %s: lastInvocation is not part of any invocation tree", ref)
 		}
 	}
+	// "every worker is assigned at most one task" / "tells a worker to execute
+	// the task currently assigned to that worker": the scheduler must know the
+	// worker it is talking to. A worker thread that is inside Synchronize and
+	// has reached the select of its long poll has been registered by that very
+	// call and has cancelled its own removal and that of its queue; until the
+	// call returns it is in exactly one worker table (the one of its size
+	// class queue, which therefore exists).
+	m.w.mu.Lock()
+	for _, a := range m.w.actors {
+		if a.kind != "worker" || !a.inCall || a.doneCalls == 0 {
+			continue
+		}
+		vw, _, n := m.findWorker(snap, a.name, a.wspec.SizeClass)
+		if vw == nil {
+			fail("worker/synchronizing-but-unknown", "worker %s is parked inside Synchronize (long poll) but is not in the worker table of any size class queue: its queue was removed under it, a task handed to it has no worker the scheduler knows", a.name)
+		} else if n > 1 {
+			fail("worker/in-two-tables", "worker %s is parked inside Synchronize and appears in %d worker tables", a.name, n)
+		}
+	}
+	m.w.mu.Unlock()
 	for ref := range idleList {
 		if workers[ref] == nil {
 			fail("list/idle-worker-unknown", "idle-synchronizing list contains %q, which is not in any worker table", ref)
@@ -1468,6 +1606,41 @@ func (m *monitors) checkC06(snap *scheduler.VerifSnap) {
 		}
 		if completed != "" {
 			m.fail("C06", "lost-wakeup/completed-while-blocked", "stream %s sleeps in the select of waitExecution (update timer armed for tick %d, context not cancelled) although its task has COMPLETED (%s): the completion did not wake it up", s.id, a.timer.deadline, completed)
+		}
+	}
+	// "Every blocked call (..., TerminateWorkers) returns once its wake-up
+	// condition ... occurs": TerminateWorkers "blocks until any operations
+	// running on the workers complete", i.e. its wake-up condition is that
+	// none of the matching workers is executing a task any more (matching
+	// workers are marked terminating and receive no further tasks). At a
+	// quiescent point with the scheduler lock free everything that can run
+	// has run: an operator thread that still sleeps in the select of
+	// TerminateWorkers (select reached, context not cancelled) while no
+	// matching worker holds a task has lost its wake-up. That some later,
+	// unrelated event (the task finishing on ANOTHER worker after a size-class
+	// retry) closes the channel it sleeps on does not count.
+	for _, a := range m.w.actors {
+		if a.kind != "operator" || !a.inCall || a.doneCalls == 0 || a.ctx == nil || a.ctx.cancelled() || len(a.ops) == 0 {
+			continue
+		}
+		oc := a.ops[len(a.ops)-1]
+		f := strings.Fields(oc.call)
+		if f[0] != "term" || !oc.started || oc.ended {
+			continue
+		}
+		key := workerKeyJSON(f[1])
+		busy := false
+		for _, pq := range snap.PlatformQueues {
+			for _, scq := range pq.SizeClassQueues {
+				for _, wk := range scq.Workers {
+					if wk.Key == key && wk.CurrentTask >= 0 {
+						busy = true
+					}
+				}
+			}
+		}
+		if !busy {
+			m.fail("C06", "lost-wakeup/terminate-workers/worker-idle", "operator %s sleeps in the select of TerminateWorkers(%s) (context not cancelled) although worker %s is not executing any task: the event that took the task off the worker did not wake the call up", a.name, f[1], f[1])
 		}
 	}
 	m.w.mu.Unlock()
@@ -1804,6 +1977,15 @@ func (m *monitors) buildKey(snap *scheduler.VerifSnap) string {
 		for _, r := range ti.reports {
 			b.s(r.resp.Message).s(",")
 		}
+	}
+	b.s(" LW")
+	lwNames := make([]string, 0, len(m.lastWaiter))
+	for n := range m.lastWaiter {
+		lwNames = append(lwNames, n)
+	}
+	sort.Strings(lwNames)
+	for _, n := range lwNames {
+		b.s(" ").s(opShort(n)).s("@").i(m.lastWaiter[n])
 	}
 	b.s("|AN")
 	for _, s := range w.analyzer.selectors {
